@@ -57,7 +57,7 @@ class Executor(ExprMixin):
         self.spec_mode = False
         self.cur: Optional[Contract] = None
         self.timeout = solver_timeout_ms
-        self.globals = {"Token": PyConst("Token"), "sys": PyConst("sys"), "ast": PyConst("ast"), "Load": PyConst("Load"),
+        self.globals = {"TokenizerState": PyConst("TokenizerState"), "Token": PyConst("Token"), "sys": PyConst("sys"), "ast": PyConst("ast"), "Load": PyConst("Load"),
                         "Store": PyConst("Store"), "Del": PyConst("Del"), "TokenInfo": PyConst("TokenInfo"),
                         "tabsize": z3.IntVal(8)}
         for c in EXC_CLASSES:
@@ -227,6 +227,9 @@ class Executor(ExprMixin):
             return PyCache.fresh(prefix)
         if isinstance(v, PyGen):
             return PyGen(v.items, fresh(prefix + "_pos", I))
+        if isinstance(v, PyCallable) and v.kind == "linesrc":
+            np_ = fresh(prefix + "_pos", I)
+            return PyCallable("linesrc", v.name, bound=PyGen(v.bound.items, np_))
         if isinstance(v, (PyObj, PyConst, PyCallable)):
             return v
         raise Unsupported(f"havoc of {type(v).__name__}")
@@ -491,6 +494,10 @@ class Executor(ExprMixin):
         if parts[0] not in env:
             return
         if len(parts) == 1:
+            v0 = env[parts[0]]
+            if isinstance(v0, PyCallable) and v0.kind == "linesrc":
+                v0.bound.pos = fresh(prefix + parts[0] + "_pos", I)      # in place: the caller's binding denotes the same source
+                return
             env[parts[0]] = self.rel_fresh(env[parts[0]], prefix + parts[0], path)
             return
         o = env[parts[0]]
@@ -827,6 +834,11 @@ class Executor(ExprMixin):
                 return [(st, self.make_exception(st, fn.name, args))]
             if fn.name == "TokenInfo":
                 return [(st, self.make_token(st, args, kwargs))]
+            if fn.name in self.classes and "__init__" in self.classes[fn.name]:
+                o = PyObj(fn.name, {})
+                for f, init in self.classes[fn.name]["__init__"].items():
+                    o.fields[f] = init(self, st)
+                return [(st, o)]
             if fn.name.startswith("ast."):
                 return [(st, PyObj(fn.name, dict(kwargs)))]
         raise Unsupported(f"call of {fn!r} at line {node.lineno}")
